@@ -561,7 +561,7 @@ func formatAlphabet() map[string]formatT {
 	return map[string]formatT{
 		"none": nil, "ldp": {"ldp_vc": {"proof_type": {"JsonWebSignature2020"}}}, "ldp-other": {"ldp_vc": {"proof_type": {"Ed25519Signature2018"}}},
 		"jwt": {"jwt_vc": {"alg": {"ES256"}}}, "jwt-other": {"jwt_vc": {"alg": {"ES384", "PS256"}}},
-		"both": {"ldp_vc": {"proof_type": {"Ed25519Signature2018", "JsonWebSignature2020"}}, "jwt_vc": {"alg": {"ES256"}}},
+		"both":    {"ldp_vc": {"proof_type": {"Ed25519Signature2018", "JsonWebSignature2020"}}, "jwt_vc": {"alg": {"ES256"}}},
 		"vp-only": {"ldp_vp": {"proof_type": {"JsonWebSignature2020"}}},
 	}
 }
@@ -596,9 +596,9 @@ func grammarRequirements(thorough bool) []namedDef {
 		return d
 	}
 	fields := []fieldT{
-		{ID: sp("x"), Path: pathAlphabet["x"], Filter: &filterT{Type: "string", Const: sp("alpha-1")}},                 // M, N2
-		typeField,                                                                                                   // M, N1, N2
-		{Path: []string{"$.type"}, Filter: &filterT{Type: "string", Const: sp("DecoyCredential")}},                  // D
+		{ID: sp("x"), Path: pathAlphabet["x"], Filter: &filterT{Type: "string", Const: sp("alpha-1")}}, // M, N2
+		typeField, // M, N1, N2
+		{Path: []string{"$.type"}, Filter: &filterT{Type: "string", Const: sp("DecoyCredential")}}, // D
 	}
 	groupSets := [][]string{{"A"}, {"B"}, {"A", "B"}}
 	rules := func(g string) []requirementT {
